@@ -7,6 +7,7 @@ from ..core import (
     callee_of,
     callee_is,
     callee_name,
+    callee_decl,
     callee_matches,
     strip_generics,
     op_place,
@@ -138,6 +139,7 @@ def rule_answer_grammar(ctx):
             wparams = [i for i in range(1, b.n_args + 1) if "dyn std::io::Write" in b.local_ty(i)]
             if not r.require_anchor(len(wparams) == 1, "the `&mut dyn Write` parameter of %s" % b.path):
                 continue
+            _no_short_write(prog, r, anchor, _io_reach(prog, b))
             outlang.clear_cache()
             try:
                 lang = outlang.sink_language(prog, b, ("param", wparams[0]))
@@ -219,6 +221,12 @@ def _io_reach(prog, b):
     return [x for x in prog.reachable_from([b], virtual_dispatch=False).values() if x.path.startswith("io::") or "<io::" in x.path.split(" as ")[0]]
 
 
+def _no_short_write(prog, r, anchor, bodies):
+    """`Write::write` may accept only a prefix of the buffer: a writer must use write_all / write! / writeln!"""
+    short = [s for x in bodies for s in x.calls() if callee_of(s) and callee_decl(callee_of(s)) in ("std::io::Write::write", "std::io::Write::write_vectored")]
+    r.check(not short, anchor, "short-write", "no bare Write::write (which may accept only part of the buffer)", "the text is handed to Write::write, which may write only a prefix of it (pipes, slow sinks): the rest of the line is lost while the method returns Ok", short[0].loc() if short else None)
+
+
 def rule_framework_writer(ctx):
     from .. import outlang
 
@@ -262,6 +270,14 @@ def rule_framework_writer(ctx):
     allowed = {"argument_set", "iter", "iter_attacks"}
     extra = sorted(set(used) - allowed)
     r.check(not extra, b.id, "sources:%s" % extra, "arguments and attacks come from ArgumentSet::iter / AAFramework::iter_attacks only (%s)" % sorted(used), "the framework writer also uses %s: declarations are no longer one per live argument / live attack" % extra, used[extra[0]].loc() if extra else b.loc())
+    reorder = []
+    for x in bodies:
+        for s in x.calls():
+            d = callee_decl(callee_of(s)) if callee_of(s) else ""
+            if re.search(r"(::sort(_unstable)?(_by(_key)?|_by_cached_key)?$|::reverse$|Iterator::rev$|::dedup(_by(_key)?)?$|::retain$|Iterator::(filter|filter_map|skip|take|step_by|skip_while|take_while)$|^alloc::collections::|^std::collections::)", d):
+                reorder.append((s, d))
+    r.check(not reorder, b.id, "reordered:%s" % sorted({d.rsplit("::", 1)[-1] for _, d in reorder}), "declarations are written in the iterators' order, none skipped (no sort / rev / filter / set collection in the writer)", "the framework writer reorders or filters the declarations (%s): reading the text back gives other ids / another framework" % sorted({d for _, d in reorder}), reorder[0][0].loc() if reorder else b.loc())
+    _no_short_write(prog, r, b.id, bodies)
     r.check("iter" in used and "iter_attacks" in used, b.id, "arg-source" if "iter" not in used else "att-source", "both ArgumentSet::iter and AAFramework::iter_attacks are iterated", "the writer does not iterate %s" % ("ArgumentSet::iter" if "iter" not in used else "AAFramework::iter_attacks"), b.loc())
     # attacker first, attacked second
     atts = [fs for fs in fss if fs.template.startswith("att(")]
